@@ -309,11 +309,38 @@ pub fn run_op(op: &str, a: &[String]) -> Result<(), String> {
             if total > MAX_FANOUT {
                 return Ok(());
             }
-            guard(|| a5::uncompact(&l, t)).map(|_| ())
+            // any u64s, any i32: returns; an Ok result consists of canonical IDs of the target resolution; a bit
+            // pattern that is not a cell is rejected
+            match guard(|| a5::uncompact(&l, t))? {
+                Ok(v) => {
+                    if let Some(bad) = v.iter().find(|x| !canonical(**x) || res_of(**x) != t) {
+                        return Err(format!("uncompact({}, {}) returned {} which is not a canonical ID of resolution {}", flist(&l), t, hx(*bad), t));
+                    }
+                    if let Some(bad) = l.iter().find(|x| dec(**x).is_none()) {
+                        return Err(format!("uncompact({}, {}) = Ok although {} is not a cell", flist(&l), t, hx(*bad)));
+                    }
+                    Ok(())
+                }
+                Err(_) => Ok(()),
+            }
         }
         "compact_total" => {
+            // any u64s: returns; Ok only if every input decodes, and then every output is a canonical ID
             let l = plist(&a[0]);
-            guard(|| a5::compact(&l)).map(|_| ())
+            match guard(|| a5::compact(&l))? {
+                Ok(v) => {
+                    if let Some(bad) = l.iter().find(|x| dec(**x).is_none()) {
+                        return Err(format!("compact({}) = Ok although {} is not a cell", flist(&l), hx(*bad)));
+                    }
+                    if let Some(bad) = v.iter().find(|x| !canonical(**x)) {
+                        return Err(format!("compact({}) returned the non-canonical ID {}", flist(&l), hx(*bad)));
+                    }
+                    Ok(())
+                }
+                Err(e) => {
+                    if l.iter().all(|x| dec(*x).is_some()) { Err(format!("compact({}) = Err({}) although every input is a cell", flist(&l), e)) } else { Ok(()) }
+                }
+            }
         }
         "compact_cover" | "compact_max" => {
             // canonical inputs; compact_cover = C08 (cover, duplicates, order independence),
